@@ -430,6 +430,35 @@ theorem reload_old_order_leaves_group_empty :
     [⟨0, fun _ => none, [(3, 0), (4, 1)]⟩, ⟨1, fun _ => none, [(5, 2), (3, 0), (4, 1)]⟩],
     _, rfl, by decide, by decide, by decide, by decide⟩
 
+/-- **Matching is per group.** The (new node, old node) pairs the hand-over restores for a new group `G`
+are taken only from an old group with `G`'s name, and only between members of the same node name: a
+node of new group `G` never inherits from a same-named dialer that lives in another old group. -/
+theorem handover_matches_per_group (olds news : List GenGroup) (fb : Nat → Nat → Option Nat) :
+    ∀ R ∈ reloadGroupsOf olds news fb, ∃ G ∈ news, R.g = G.gid ∧ ∀ p ∈ R.pairs,
+      ∃ og ∈ olds, og.gname = G.gname ∧ ∃ nm, (p.1, nm) ∈ G.members ∧ (p.2, nm) ∈ og.members := by
+  intro R hR
+  simp only [reloadGroupsOf, List.mem_map] at hR
+  obtain ⟨G, hG, rfl⟩ := hR
+  exact ⟨G, hG, rfl, fun p hp => matchGroup_sound olds G p hp⟩
+
+/-- A node of the new generation that is matched in no group (its name is absent from every namesake
+old group) comes out of the restore pass exactly as it went in, and the whole hand-over never declares
+it not alive. -/
+theorem handover_unmatched_node_untouched (w : World) (gs : List ReloadGroup) (o : Oracle) (n : Nat)
+    (hn : ∀ G ∈ gs, ∀ p ∈ G.pairs, p.1 ≠ n) :
+    (restoreGroups gs w o).1.nodes n = w.nodes n ∧
+    ∀ i, (w.nodes n).alive i = true → ((step w (.reload gs o)).1.nodes n).alive i = true := by
+  refine ⟨restoreGroups_nodes_other o n gs w hn, fun i ha => ?_⟩
+  simp only [step, reload]
+  exact floorGroups_alive_mono o n i gs _ (restoreGroups_alive_mono o n i gs w hn ha)
+
+/-- old group 1 has a dead node named 7 (object 0); old group 2 has no node of that name.  New group 2
+gets a fresh node (object 5) named 7: it is matched with nothing, although the name exists elsewhere. -/
+example :
+    matchGroup [⟨0, 1, [(0, 7)]⟩, ⟨0, 2, [(1, 8)]⟩] ⟨9, 2, [(5, 7), (6, 8)]⟩ = [(6, 1)] ∧
+    matchGroup [⟨0, 1, [(0, 7)]⟩, ⟨0, 2, [(1, 8)]⟩] ⟨9, 1, [(5, 7)]⟩ = [(5, 0)] ∧
+    matchGroup [⟨0, 1, [(0, 7)]⟩] ⟨9, 3, [(5, 7)]⟩ = [] := by decide
+
 /-- a new generation inherits an all-dead TCP4 state; the floor revives the first member -/
 example :
     let h : List Event := [.node 0 0, .node 1 0, .forced 0 .t4 [], .forced 1 .t4 [],
